@@ -118,30 +118,36 @@ def run_site(ctx, site, make, files, expect_equal=True):
 
 def site_dask(nested):
     x = da.from_array(np.arange(24).reshape(4, 6), chunks=2)
-    expect = (np.arange(24).reshape(4, 6)[1:4][:, ::2] + 1) if not nested else (np.arange(24).reshape(4, 6)[1:4][1:3][:, ::2] + 1)
+    base = np.arange(24).reshape(4, 6)
+    expect = ((base[1:4][:, ::2] if not nested else base[1:4][1:3][:, ::2]).astype(np.float32) + 0.5) * 2
 
     def make(s):
         calls = []
 
         def tr(a):
             calls.append(1)
-            return a + 1
+            return a.astype(np.float32) + 0.5
+
+        def tr2(a):
+            return a * 2
         if nested:
             inner = DaskLazyIndexer(x, (slice(1, 4),))
             inner._lock = ILock(s)
-            li = DaskLazyIndexer(inner, (slice(1, 3), slice(None, None, 2)), transforms=[tr])
+            li = DaskLazyIndexer(inner, (slice(1, 3), slice(None, None, 2)), transforms=[tr, tr2])
         else:
-            li = DaskLazyIndexer(x, (slice(1, 4), slice(None, None, 2)), transforms=[tr])
+            li = DaskLazyIndexer(x, (slice(1, 4), slice(None, None, 2)), transforms=[tr, tr2])
         li._lock = ILock(s)
 
         def f():
             d = li.dataset
-            return (d.shape, str(d.dtype))
+            # every thread must see the fully transformed array (values, not only shape)
+            return (d.shape, str(d.dtype), np.asarray(d.compute(scheduler='synchronous')).tolist())
 
         def check(results):
-            shapes = {r[1] for r in results.values()}
-            if shapes != {(expect.shape, str(expect.dtype))}:
-                return 'wrong_value; %s' % sorted(map(str, shapes))
+            want = (expect.shape, str(expect.dtype), expect.tolist())
+            for tid, r in results.items():
+                if r[1] != want:
+                    return 'wrong_value; thread %d got dtype %s' % (tid, r[1][1])
             if len(calls) != 1:
                 return 'initialised_%d_times' % len(calls)
             if not np.array_equal(li.dataset.compute(), expect):
